@@ -29,7 +29,7 @@ func (c20) ID() string { return "C20" }
 func (c20) Meta(tier string) engine.Meta {
 	return engine.Meta{
 		Level: "model_checking",
-		Rule: "all criteria trees of depth <= 2 over binary AND / OR, unary NOT and 11 leaf conditions (=, <>, >, >=, <, <=, IN, BETWEEN, LIKE, IS NULL on number, string, boolean and time columns; operands that are literals, names bound in the run-time environment and unbound names) (thorough: depth 3 over 3 leaves), plus every adversarial operand (quotes, backslashes, comment markers, newline, NUL, non-ASCII, SQL fragments; numbers -1, 0.5, 2^53, 2^63, 1e300, -0) in every string- / number-taking condition inside four tree contexts. Oracle: the text is re-read by a tokenizer + precedence reader with standard SQL precedence; the resulting tree must equal the input tree modulo flattening of AND / OR; each operand must be exactly one token that decodes to the operand (strings) / parses back to the same double in plain numeric form / is 1 or 0 / from_unixtime(n); bound names appear as their values, unbound names as back-quoted columns. non-trivial = trees with at least one connective",
+		Rule: "all criteria trees of depth <= 2 over binary AND / OR, unary NOT and 12 leaf conditions (=, <>, >, >=, <, <=, IN, BETWEEN, LIKE, IS NULL on number, string, boolean and time columns; operands that are literals, names bound in the run-time environment and unbound names) (thorough: depth 3 over 3 leaves), plus every adversarial operand (quotes, backslashes, comment markers, newline, NUL, non-ASCII, SQL fragments; numbers -1, 0.5, 2^53, 2^63, 1e300, -0) in every string- / number-taking condition inside four tree contexts. Oracle: the text is re-read by a tokenizer + precedence reader with standard SQL precedence; the resulting tree must equal the input tree modulo flattening of AND / OR; each operand must be exactly one token that decodes to the operand (strings) / parses back to the same double in plain numeric form / is 1 or 0 / from_unixtime(n); bound names appear as their values, unbound names as back-quoted columns. non-trivial = trees with at least one connective",
 		Bound: "depth 2 × 11 leaves (thorough depth 3 × 3 leaves); 14 adversarial strings, 8 numbers",
 		Assumptions: []string{"double-quoted literals with backslash escapes (the generator's quoting convention) are read the way MySQL reads them: a backslash escapes the next character"},
 	}
@@ -79,6 +79,8 @@ func (o sqlOperand) str() string {
 		return "'" + o.Text + "'"
 	case "name":
 		return "$" + o.Name
+	case "member":
+		return "$" + o.Name + "." + o.Text
 	}
 	xs := make([]string, len(o.List))
 	for i, e := range o.List {
@@ -93,6 +95,10 @@ func numOp(text string) sqlOperand {
 }
 func strOp(s string) sqlOperand  { return sqlOperand{Kind: "str", S: s} }
 func nameOp(n string) sqlOperand { return sqlOperand{Kind: "name", Name: n} }
+
+// memberOp: a field of the run-time object `obj` ({n: 5, s: sv, t: instant}, stored in another field
+// order than its type declares).
+func memberOp(field string) sqlOperand { return sqlOperand{Kind: "member", Name: "obj", Text: field} }
 
 // model: columns and the run-time bindings
 var c20Model = map[string]*types.Type{
@@ -118,6 +124,7 @@ func c20Leaves() []*crit {
 		{Op: "<=", Field: "a", Operands: []sqlOperand{nameOp("u")}},
 		{Op: ">=", Field: "u", Operands: []sqlOperand{nameOp("n2")}},
 		{Op: "=", Field: "s", Operands: []sqlOperand{nameOp("sv")}},
+		{Op: "<", Field: "a", Operands: []sqlOperand{memberOp("n")}},
 	}
 }
 
@@ -180,6 +187,27 @@ func (c20) Generate(tier string, yield func(*engine.Case) bool) {
 			emit("tree", t, std)
 		}
 	}
+	// one leaf per overload of the SQL function table, alone and under NOT / AND
+	{
+		tm := sqlOperand{Kind: "time", Text: "2022-01-02 03:04:05"}
+		var all []*crit
+		for _, op := range []string{"=", "<>", ">", ">=", "<", "<="} {
+			all = append(all, &crit{Op: op, Field: "a", Operands: []sqlOperand{numOp("2.5")}}, &crit{Op: op, Field: "t", Operands: []sqlOperand{tm}},
+				&crit{Op: op, Field: "t", Operands: []sqlOperand{nameOp("tv")}}, &crit{Op: op, Field: "u", Operands: []sqlOperand{nameOp("a")}})
+		}
+		for _, op := range []string{"=", "<>"} {
+			all = append(all, &crit{Op: op, Field: "s", Operands: []sqlOperand{strOp("v")}}, &crit{Op: op, Field: "b", Operands: []sqlOperand{{Kind: "bool", B: false}}},
+				&crit{Op: op, Field: "b", Operands: []sqlOperand{nameOp("bv")}})
+		}
+		all = append(all, &crit{Op: "BETWEEN", Field: "t", Operands: []sqlOperand{tm, nameOp("tv")}}, &crit{Op: "BETWEEN", Field: "a", Operands: []sqlOperand{nameOp("u"), numOp("9")}},
+			&crit{Op: "IN", Field: "s", Operands: []sqlOperand{{Kind: "list", List: []sqlOperand{strOp("x"), nameOp("sv")}}}}, &crit{Op: "IN", Field: "t", Operands: []sqlOperand{{Kind: "list", List: []sqlOperand{tm}}}},
+			&crit{Op: "ISNULL", Field: "s"}, &crit{Op: "ISNULL", Field: "t"}, &crit{Op: "ISNULL", Field: "b"}, &crit{Op: "LIKE", Field: "sv", Operands: []sqlOperand{nameOp("s")}})
+		for _, l := range all {
+			emit("every-sql-overload", l, std)
+			emit("every-sql-overload", &crit{Op: "NOT", Kids: []*crit{l}}, std)
+			emit("every-sql-overload", &crit{Op: "AND", Kids: []*crit{l, {Op: "OR", Kids: []*crit{l, l}}}}, std)
+		}
+	}
 	// adversarial operands in every condition that takes them, inside four contexts
 	other := &crit{Op: "=", Field: "a", Operands: []sqlOperand{numOp("1")}}
 	ctxs := []func(x *crit) *crit{
@@ -194,6 +222,7 @@ func (c20) Generate(tier string, yield func(*engine.Case) bool) {
 				emit("strings", cf(&crit{Op: op, Field: "s", Operands: []sqlOperand{strOp(s)}}), std)
 				emit("strings", cf(&crit{Op: op, Field: "s", Operands: []sqlOperand{nameOp("sv")}}), c20Bind{U: 1, SV: s})
 				emit("strings", cf(&crit{Op: op, Field: "sv", Operands: []sqlOperand{strOp(s)}}), c20Bind{U: 1, SV: s})
+				emit("strings", cf(&crit{Op: op, Field: "s", Operands: []sqlOperand{memberOp("s")}}), c20Bind{U: 1, SV: s})
 			}
 		}
 	}
@@ -267,6 +296,8 @@ func toAstOperand(o sqlOperand) ast.Expr {
 		return ast.Time("'"+o.Text+"'", pos.Unknown)
 	case "name":
 		return ast.Var(o.Name, pos.Unknown)
+	case "member":
+		return ast.Member(ast.Var(o.Name, pos.Unknown), ast.Var(o.Text, pos.Unknown), pos.UnknownCol, pos.Unknown)
 	}
 	els := make([]ast.Expr, len(o.List))
 	for i, e := range o.List {
@@ -296,6 +327,14 @@ var plainNum = regexp.MustCompile(`^-?[0-9]+(\.[0-9]+)?$`)
 
 // checkOperand: does the token carry exactly this operand?
 func checkOperand(want sqlOperand, got ref.SQLTok, bind c20Bind) string {
+	if want.Kind == "member" {
+		switch want.Text {
+		case "n":
+			want = sqlOperand{Kind: "num", N: 5}
+		case "s":
+			want = strOp(bind.SV)
+		}
+	}
 	if want.Kind == "name" {
 		switch want.Name {
 		case "u":
@@ -403,9 +442,17 @@ func (c20) Run(c *engine.Case) *engine.Result {
 	for _, n := range []string{"a", "s", "b", "t", "u", "sv", "n2", "tv", "bv"} {
 		env1.Put(n, c20Model[n])
 	}
+	env1.Put("obj", types.Obj([]types.Field{{Name: "n", Val: types.Num}, {Name: "s", Val: types.Str}}))
 	env := val.NewEnv()
 	env.Put("u", val.Num(d.B.U))
 	env.Put("sv", val.Str(d.B.SV))
+	{
+		// stored with its fields in the other order than the model declares
+		ot := types.Obj([]types.Field{{Name: "s", Val: types.Str}, {Name: "n", Val: types.Num}}).Obj()
+		ov := val.Obj(ot).Obj()
+		ov.V[0], ov.V[1] = val.Str(d.B.SV), val.Num(5)
+		env.Put("obj", ov.Vl())
+	}
 	var text string
 	var err error
 	func() {
